@@ -812,6 +812,58 @@ fn universe_keys() -> Vec<Vec<u8>> {
     UNIVERSE_KEYS.iter().map(|k| k.to_vec()).collect()
 }
 
+/// Build, seal and read back one block of `n` entries (keys = big-endian counters, one-byte
+/// values, a restart point at every entry).  Returns the number of cursor calls made.
+fn big_block(n: usize) -> Result<u64, String> {
+    use sst::Cursor;
+    let opts = BlockBuilderOptions::default().bytes_restart_interval(1).key_value_pairs_restart_interval(1);
+    let mut b = BlockBuilder::new(opts);
+    for i in 0..n {
+        b.put(&(i as u32).to_be_bytes(), 1, b"v").map_err(|e| format!("put #{i} refused: {e}"))?;
+    }
+    let block: Block = b.seal().map_err(|e| format!("seal failed: {e}"))?;
+    let mut calls = 0u64;
+    let mut c = block.cursor();
+    c.seek_to_first().map_err(|e| format!("seek_to_first: {e}"))?;
+    let mut seen = 0usize;
+    loop {
+        c.next().map_err(|e| format!("next after {seen} entries: {e}"))?;
+        calls += 1;
+        match c.key() {
+            None => break,
+            Some(k) => {
+                if k.key != (seen as u32).to_be_bytes() {
+                    return Err(format!("entry #{seen} has key {}", vcore::esc(k.key)));
+                }
+                seen += 1;
+            }
+        }
+    }
+    if seen != n {
+        return Err(format!("forward walk saw {seen} of {n} entries"));
+    }
+    if n > 0 {
+        c.seek_to_last().map_err(|e| format!("seek_to_last: {e}"))?;
+        c.prev().map_err(|e| format!("seek_to_last; prev: {e}"))?;
+        match c.key() {
+            Some(k) if k.key == ((n - 1) as u32).to_be_bytes() => {}
+            other => return Err(format!("seek_to_last; prev is at {:?}", other.map(|k| vcore::esc(k.key)))),
+        }
+        c.seek(&[0xff; 5]).map_err(|e| format!("seek past the last key: {e}"))?;
+        if c.key().is_some() {
+            return Err("seek past the last key found an entry".into());
+        }
+        let mid = (n / 2) as u32;
+        c.seek(&mid.to_be_bytes()).map_err(|e| format!("seek(middle): {e}"))?;
+        match c.key() {
+            Some(k) if k.key == mid.to_be_bytes() => {}
+            other => return Err(format!("seek(middle) is at {:?}", other.map(|k| vcore::esc(k.key)))),
+        }
+        calls += 5;
+    }
+    Ok(calls)
+}
+
 /// Hand-built tables: size limits, multi-block layouts.  (name, specs, extra seek keys)
 fn special_tables() -> Vec<(&'static str, Vec<Spec>, Vec<Vec<u8>>)> {
     use Kind::*;
@@ -1065,11 +1117,55 @@ fn main() {
         }
     }
     let n_items = items.len();
+    let mut total_extra: Option<Report> = None;
     let found = Findings::new();
+    // one block with a restart point per entry and n tiny entries, for n around the counts at
+    // which the length prefix of the restart array grows by a byte (2^7, 2^14 and 2^21 bytes of
+    // array, i.e. about 32, 4096 and 524288 restart points): walked forward completely, entered
+    // from the end, sought past the last key and at the middle
+    let mut big_blocks = 0u64;
+    if want("bigblock") {
+        let ns: Vec<usize> = (28..=36).chain(4090..=4100).chain(524280..=524292).collect();
+        let rep = vcore::parallel(ns, args.threads(), || Report::new("seq_sst", "C10"), |n, rep| {
+            rep.evaluations += 1;
+            rep.traces_validated += 1;
+            rep.count("big_blocks", 1);
+            rep.states.insert(vcore::stable_hash(&("bigblock", *n)));
+            let r = vcore::catch(|| big_block(*n));
+            let bad = match r {
+                Err(p) => Some(format!("panic: {p}")),
+                Ok(Err(e)) => Some(e),
+                Ok(Ok(calls)) => {
+                    rep.transitions += calls;
+                    None
+                }
+            };
+            rep.outcomes.insert(vcore::stable_hash(&("bigblock", bad.is_some())));
+            if let Some(e) = bad {
+                // replay before report
+                if matches!(vcore::catch(|| big_block(*n)), Ok(Ok(_))) {
+                    rep.count("non_reproducible_findings", 1);
+                    return;
+                }
+                let class = if *n < 1000 { "2^7" } else if *n < 100000 { "2^14" } else { "2^21" };
+                found.record(*n as u64, Violation {
+                    property: "C10".into(),
+                    signature: format!("c10:block:restart-array-of-about-{class}-bytes"),
+                    detail: format!("a block of {n} one-byte-value entries with a restart point per entry: {e}"),
+                    case: json!({"kind": "bigblock", "n": n}),
+                });
+            }
+        });
+        big_blocks = rep.evaluations;
+        total_extra = Some(rep);
+    }
     let mk = || Report::new("seq_sst", "C10");
     let mut total = vcore::parallel(items, args.threads(), mk, |item, rep| {
         work(&plan, item, rep, &found);
     });
+    if let Some(r) = total_extra {
+        total.merge(r);
+    }
     found.into_report(&mut total);
     total.bound = json!({
         "universe": plan.universe.iter().map(|s| short_entry(&s.entry())).collect::<Vec<_>>(),
@@ -1082,6 +1178,7 @@ fn main() {
         "rejections": "every ordered pair (e_i, e_j) of universe entries with e_j <= e_i (duplicates included), alone and followed by a valid entry; oversize key (put, del), oversize value, oversize first entry",
         "special_tables": plan.specials.iter().map(|(n, s, _)| format!("{n} ({} entries)", s.len())).collect::<Vec<_>>(),
         "special_program_len": plan.special_len,
+        "big_blocks": format!("{big_blocks} blocks of n one-byte-value entries with a restart point at every entry, n in 28..=36, 4090..=4100 and 524280..=524292 (the restart array crossing 2^7, 2^14 and 2^21 bytes): full forward walk, seek_to_last+prev, seek past the end, seek(middle)"),
         "work_items": n_items,
     });
     total.rule = "evaluation = one (entry sequence, builder options, subject) case built from scratch by the real builder and checked with all cursor programs, all point lookups and the metadata; distinct = the entry sequence; non-trivial = >= 2 entries with two versions of one key, a key that is a prefix of its successor, or a tombstone (rejection and hand-built cases are all non-trivial); outcomes = distinct observations returned by the real cursors and lookups".into();
